@@ -110,6 +110,10 @@ func valOfMap(rv reflect.Value, lv int) *val.Val {
 		assertTypeEquals(kVal, tmpKVal)
 		tmpVVal := valOf(rv.MapIndex(keys[i]), lv+1)
 		assertTypeEquals(vVal, tmpVVal)
+		// 不同的 go key 转换后可能是同一个 key (int64 超过 2^53 丢失精度), 否则保留哪个值取决于 go map 的遍历顺序
+		if _, dup := m.Get(tmpKVal); dup {
+			panic(fmt.Errorf("val: ValOf: distinct map keys collide after conversion: %s", tmpKVal))
+		}
 		m.Put(tmpKVal, tmpVVal)
 	}
 	return m.Vl()
